@@ -6,6 +6,7 @@ import (
 	"go/types"
 	"sort"
 	"strings"
+	"sync"
 
 	"golang.org/x/tools/go/ssa"
 )
@@ -95,47 +96,52 @@ type Enc struct {
 	ctr  *Contract
 	opts EncOpts
 
-	decls    []string
-	declSet  map[string]bool
-	asserts  []string
-	obls     []*Obligation
-	vals     map[ssa.Value]*Val
-	pc       map[*ssa.BasicBlock]string
-	in       map[*ssa.BasicBlock]*State
-	out      map[*ssa.BasicBlock]*State
-	edgeCond map[[2]int]string // [from block index, succ slot]
-	nfresh   int
-	nepoch   int
-	nver     int
-	notes    []string
-	noteSet  map[string]bool
-	ords     map[string]int
-	loops    map[*ssa.BasicBlock]*loopInfo
-	entry    *State
-	hkeys    map[string]*heapKey
-	lits     map[string]string // string literal -> const name
-	litOrder []string
-	tags     map[string]int
-	nonEsc   map[ssa.Value]bool
-	allocd   []ssa.Value // executed allocation sites (in order)
-	specDecl map[string]bool
-	retVals  []retPoint
-	callOrd  map[string]int
-	curBlock *ssa.BasicBlock
-	curState *State
-	curInstr ssa.Instruction
-	useStr   bool
-	boxDecl  map[string]bool
-	iterInfo map[ssa.Value]*iterState
+	decls        []string
+	declSet      map[string]bool
+	asserts      []string
+	obls         []*Obligation
+	vals         map[ssa.Value]*Val
+	pc           map[*ssa.BasicBlock]string
+	in           map[*ssa.BasicBlock]*State
+	out          map[*ssa.BasicBlock]*State
+	edgeCond     map[[2]int]string // [from block index, succ slot]
+	nfresh       int
+	nepoch       int
+	nver         int
+	notes        []string
+	noteSet      map[string]bool
+	ords         map[string]int
+	loops        map[*ssa.BasicBlock]*loopInfo
+	entry        *State
+	hkeys        map[string]*heapKey
+	lits         map[string]string // string literal -> const name
+	litOrder     []string
+	tags         map[string]int
+	nonEsc       map[ssa.Value]bool
+	allocd       []ssa.Value // executed allocation sites (in order)
+	specDecl     map[string]bool
+	retVals      []retPoint
+	callOrd      map[string]int
+	curBlock     *ssa.BasicBlock
+	curState     *State
+	curInstr     ssa.Instruction
+	useStr       bool
+	boxDecl      map[string]bool
+	iterInfo     map[ssa.Value]*iterState
 	disabledAuto map[string]bool
-	retWit   []WitnessTerm
-	irowTags map[string]int
-	irowSeen map[string]bool
-	domDepth map[*ssa.BasicBlock]int
-	failed   error
+	retWit       []WitnessTerm
+	liveIn       map[*ssa.BasicBlock][]string
+	ainfo        []assertInfo
+	isConstDecl  map[string]bool
+	sliceMu      sync.Mutex
+	irowTags     map[string]int
+	irowSeen     map[string]bool
+	domDepth     map[*ssa.BasicBlock]int
+	failed       error
 }
 
 type retPoint struct {
+	block *ssa.BasicBlock
 	pc    string
 	vals  []*Val
 	state *State
@@ -221,6 +227,10 @@ func (e *Enc) freshName(prefix string) string {
 func (e *Enc) declare(name, sort string) string {
 	if !e.declSet[name] {
 		e.declSet[name] = true
+		if e.isConstDecl == nil {
+			e.isConstDecl = map[string]bool{}
+		}
+		e.isConstDecl[name] = true
 		e.decls = append(e.decls, "(declare-const "+name+" "+sort+")")
 	}
 	return name
@@ -279,6 +289,20 @@ func (e *Enc) oblige(kind string, named string, claim string, pos token.Pos, des
 		e.assumeHere(claim)
 	}
 	return o
+}
+
+// splitEdges: when the current block joins several paths, heavy (quantified)
+// obligations are split per incoming edge; under "edge i was taken" the merged
+// heap arrays collapse to one path's arrays, which solvers handle far better.
+func (e *Enc) obligeSplit(pc, kind, named, claim string, pos token.Pos, desc string, at *ssa.BasicBlock) {
+	edges := e.liveIn[at]
+	if len(edges) < 2 || len(edges) > 6 {
+		e.obligeAt(pc, kind, named, claim, pos, desc)
+		return
+	}
+	for i, ed := range edges {
+		e.obligeAt(sAnd(ed, pc), kind, fmt.Sprintf("%s/in%d", named, i+1), claim, pos, desc)
+	}
 }
 
 func (e *Enc) obligeAt(pc, kind, named, claim string, pos token.Pos, desc string) *Obligation {
@@ -473,7 +497,7 @@ func (e *Enc) irow(tag, ref, idx string) string {
 		e.irowTags[tag] = tg
 	}
 	t := fmt.Sprintf("(irow %d %s %s)", tg, ref, idx)
-	if !e.irowSeen[t] {
+	if !e.irowSeen[t] && !strings.HasPrefix(ref, "?") {
 		if e.irowSeen == nil {
 			e.irowSeen = map[string]bool{}
 		}
@@ -627,14 +651,13 @@ func (e *Enc) typeInvFormula(st *State, v *Val) string {
 				if st != nil {
 					fs = append(fs, "(<= "+t+" "+st.alloc+")")
 				}
-			} else {
-				fs = append(fs, "(>= "+t+" 0)")
 			}
 		case *types.Slice:
 			sub := lf.Path[len(lf.Path)-1]
 			if sub == 1000 {
 				ref, off, ln, cp := v.L[i], v.L[i+1], v.L[i+2], v.L[i+3]
-				fs = append(fs, "(>= "+off+" 0)", "(>= "+ln+" 0)", "(<= "+ln+" "+cp+")",
+				_ = off
+				fs = append(fs, "(>= "+ln+" 0)", "(<= "+ln+" "+cp+")",
 					"(=> (= "+ref+" 0) (= "+cp+" 0))", "(<= "+cp+" 4611686018427387904)")
 				if st != nil {
 					fs = append(fs, "(<= "+ref+" "+st.alloc+")")
@@ -785,19 +808,45 @@ func (e *Enc) computeLoops() error {
 	return nil
 }
 
-// topoOrder returns reachable blocks in reverse postorder ignoring back edges.
+// topoOrder returns reachable blocks in reverse postorder ignoring back edges, with
+// the blocks of a loop placed before the blocks after it (program order), so that
+// the assumptions in force at an obligation come from code that precedes it.
 func (e *Enc) topoOrder() []*ssa.BasicBlock {
+	// innermost loop of each block
+	inner := map[*ssa.BasicBlock]*loopInfo{}
+	for _, li := range e.loops {
+		for b := range li.Body {
+			if cur := inner[b]; cur == nil || len(li.Body) < len(cur.Body) {
+				inner[b] = li
+			}
+		}
+	}
+	inLoopOf := func(b *ssa.BasicBlock, li *loopInfo) bool { return li != nil && li.Body[b] }
 	seen := map[*ssa.BasicBlock]bool{}
 	var post []*ssa.BasicBlock
 	var dfs func(b *ssa.BasicBlock)
 	dfs = func(b *ssa.BasicBlock) {
 		seen[b] = true
+		// visit loop exits first (they finish first and so come last in the reversed order)
+		var exits, stay []*ssa.BasicBlock
 		for _, s := range b.Succs {
 			if s.Dominates(b) { // back edge
 				continue
 			}
+			if li := inner[b]; li != nil && !inLoopOf(s, li) {
+				exits = append(exits, s)
+			} else {
+				stay = append(stay, s)
+			}
+		}
+		for _, s := range exits {
 			if !seen[s] {
 				dfs(s)
+			}
+		}
+		for i := len(stay) - 1; i >= 0; i-- {
+			if !seen[stay[i]] {
+				dfs(stay[i])
 			}
 		}
 		post = append(post, b)
